@@ -280,18 +280,16 @@ theorem foldA_eq (P : Params) (i : Nat) : ∀ (L : List Key) (acc : State × Lis
     exact hall k (by simp [hk])
 
 theorem mem_allKeys {s : State} {k : Key} :
-    k ∈ allKeys s ↔ k ∈ s.keys ∧ ∃ m, latestOf s k = some m ∧ m.valid = true := by
+    k ∈ allKeys s ↔ k ∈ s.keys ∧ (latestOf s k).isSome = true := by
   unfold allKeys
   rw [List.mem_filter]
-  cases hx : latestOf s k <;> simp
 
 theorem checkAll_eq (P : Params) (i : Nat) (s : State) (hnd : s.keys.Nodup) :
     checkAll P i s = (allKeys s).foldl (checkOneP P i) (s, []) := by
   unfold checkAll
   apply foldA_eq P i _ _ (hnd.filter _)
   intro k hk
-  obtain ⟨_, m, hm, _⟩ := mem_allKeys.1 hk
-  simp [hm]
+  exact (mem_allKeys.1 hk).2
 
 /-- what a failure check (either kind) does, as a `Track` -/
 theorem track_checkPeers (P : Params) (hmax : P.maxA = 1) (i : Nat) (s : State) (hc : ∀ k, s.cnt k ≤ 1)
@@ -903,12 +901,8 @@ theorem mem_peersKeys {s : State} {l : List Nat} {k : Key} :
 theorem mem_names {s : State} {k : Key} (h : k ∈ s.keys) : k.1 ∈ names s := by
   unfold names; rw [mem_dedupN]; exact List.mem_map_of_mem h
 
-/-- a tick without a peerset function finds every stored latest metric valid -/
-def calmTick (s : State) (op : Op) : Prop :=
-  op = .tick → s.ps = .unknown → ∀ k ∈ s.keys, ∀ m, latestOf s k = some m → m.valid = true
-
 theorem covered_visited {P : Params} {hist : List Op} {s : State} {t : SState} (hI : Inv P hist s t)
-    {op : Op} (hcalm : calmTick s op) {k : Key} (hc : covered t op k = true)
+    {op : Op} {k : Key} (hc : covered t op k = true)
     (hl : (latestOf s k).isSome = true) : k ∈ visited s op := by
   have hkeys : k ∈ s.keys := hI.stored k (latest_some_win hl)
   cases op with
@@ -922,8 +916,7 @@ theorem covered_visited {P : Params} {hist : List Op} {s : State} {t : SState} (
     cases hps : s.ps with
     | unknown =>
       simp only
-      obtain ⟨m, hm⟩ := Option.isSome_iff_exists.1 hl
-      exact mem_allKeys.2 ⟨hkeys, m, hm, hcalm rfl hps k hkeys m hm⟩
+      exact mem_allKeys.2 ⟨hkeys, hl⟩
     | error => simp [hps] at hc
     | known l =>
       simp only [hps, List.contains_iff_mem] at hc ⊢
@@ -963,7 +956,7 @@ theorem visited_not_A {P : Params} {i : Nat} {s : State} {op : Op} {acc : State 
 
 theorem check_expired_reported {P : Params} {hist : List Op} {i : Nat} {s : State} {t : SState} {op : Op}
     {acc : State × List Alert} (hI : Inv P hist s t) (hS : Sync s t)
-    (hT : Track P i s (visited s op).reverse acc) (hcalm : calmTick s op) :
+    (hT : Track P i s (visited s op).reverse acc) :
     t.seen.all (fun k => !mustAlert P.cap P.orc i t op k || (alertKeys acc.2).contains k) = true := by
   rw [List.all_eq_true]
   intro k _
@@ -973,7 +966,7 @@ theorem check_expired_reported {P : Params} {hist : List Op} {i : Nat} {s : Stat
     simp only [Bool.and_eq_true, Bool.not_eq_true'] at hm
     obtain ⟨⟨⟨hc, hs⟩, hr⟩, hd⟩ := hm
     have hh := hot_of_stale (i := i) hI hs hd
-    have hv := covered_visited hI hcalm hc hh.1
+    have hv := covered_visited hI hc hh.1
     have hl : (t.key k).latest ≠ none := by
       unfold stale at hs; intro h; simp [h] at hs
     have hc0 : ecnt s k = 0 := by
@@ -990,7 +983,7 @@ theorem check_expired_reported {P : Params} {hist : List Op} {i : Nat} {s : Stat
 
 theorem check_stale_forgotten {P : Params} {hist : List Op} {i : Nat} {s : State} {t : SState} {op : Op}
     {acc : State × List Alert} (hI : Inv P hist s t)
-    (hT : Track P i s (visited s op).reverse acc) (hcalm : calmTick s op) :
+    (hT : Track P i s (visited s op).reverse acc) :
     t.seen.all (fun k => !mustForget P.cap P.orc i t op k || (forgotten s acc.1).contains k) = true := by
   rw [List.all_eq_true]
   intro k _
@@ -1000,7 +993,7 @@ theorem check_stale_forgotten {P : Params} {hist : List Op} {i : Nat} {s : State
     simp only [Bool.and_eq_true, Bool.not_eq_true'] at hm
     obtain ⟨⟨⟨hc, hs⟩, hr⟩, hd⟩ := hm
     have hh := hot_of_stale (i := i) hI hs hd
-    have hv := covered_visited hI hcalm hc hh.1
+    have hv := covered_visited hI hc hh.1
     have hc1 := hI.rep k hr
     rcases visited_not_A hT hv hh with ⟨_, h0, _⟩ | hC
     · rw [hI.ecnt_eq, if_pos hc1.2] at h0; omega
@@ -1171,45 +1164,26 @@ theorem query_clauses_hold {P : Params} {hist : List Op} {s : State} {t : SState
 
 /-! ### one operation, then whole histories -/
 
-/-- the clauses that hold for every history (the others need `calm`) -/
+/-- the clauses that need no bookkeeping of the alert counters (first sentence, never-failed-if-fresh, not-repeatedly) -/
 def safeNames : List String :=
   ["at_most_one_per_peer", "most_recent", "valid_unexpired", "member", "fresh_never_failed", "alert_once",
    "shape", "no_panic"]
-
-/-- Boolean form of the hypothesis of the exactly-once clauses, per operation: a tick
-    without peerset function finds every stored latest metric valid (finding K10).
-    Evaluated on the model's states. -/
-def calmOpB (s : State) : Op → Bool
-  | .tick => !(s.ps == .unknown) ||
-      s.keys.all (fun k => match latestOf s k with | some m => m.valid | none => true)
-  | _ => true
-
-def calmFrom (P : Params) : Nat → State → List Op → Bool
-  | _, _, [] => true
-  | i, s, op :: ops => calmOpB s op && calmFrom P (i + 1) (step P i s op).1 ops
-
-theorem calmTick_of {s : State} {op : Op} (h : calmOpB s op = true) : calmTick s op := by
-  intro hop hps k hk m hm
-  subst hop
-  simp only [calmOpB, hps, beq_self_eq_true, Bool.not_true, Bool.false_or, List.all_eq_true] at h
-  have := h k hk
-  simpa [hm] using this
 
 theorem op_step {P : Params} (hc : 0 < P.cap) (hmax : P.maxA = 1) {hist : List Op} (hids : (ids hist).Nodup)
     (i : Nat) {s : State} {t : SState} (hI : Inv P hist s t) (op : Op) (hop : op ∈ hist) :
     Inv P hist (step P i s op).1 (specStep t op (step P i s op).2) ∧
     (∀ c ∈ opClauses P.cap P.orc hist i t op (step P i s op).2, c.1 ∈ safeNames → c.2 = true) ∧
-    (Sync s t → Fresh i s t → calmOpB s op = true → (∀ m, op = .add m → m.id = i) →
+    (Sync s t → Fresh i s t → (∀ m, op = .add m → m.id = i) →
       Sync (step P i s op).1 (specStep t op (step P i s op).2) ∧
       Fresh (i + 1) (step P i s op).1 (specStep t op (step P i s op).2) ∧
       ∀ c ∈ opClauses P.cap P.orc hist i t op (step P i s op).2, c.2 = true) := by
   cases op with
   | add m =>
-    refine ⟨inv_add hc hI m hop _, by simp [step, opClauses], fun hS hF _ hid => ?_⟩
+    refine ⟨inv_add hc hI m hop _, by simp [step, opClauses], fun hS hF hid => ?_⟩
     obtain ⟨a, b⟩ := sync_add (P := P) hS hF m (hid m rfl) Obs.silent
     exact ⟨a, b, by simp [step, opClauses]⟩
   | rmPeer p =>
-    refine ⟨inv_rmPeer hI p _, by simp [step, opClauses], fun hS hF _ _ =>
+    refine ⟨inv_rmPeer hI p _, by simp [step, opClauses], fun hS hF _ =>
       ⟨sync_rmPeer hS p _, ?_, by simp [step, opClauses]⟩⟩
     apply fresh_of hF (by intro k; simp [step, State.rmPeer])
     intro k m hm
@@ -1217,7 +1191,7 @@ theorem op_step {P : Params} (hc : 0 < P.cap) (hmax : P.maxA = 1) {hist : List O
     split_ifs at hm
     exact hm
   | rmMetrics n p =>
-    refine ⟨inv_rmMetrics hI n p _, by simp [step, opClauses], fun hS hF _ _ =>
+    refine ⟨inv_rmMetrics hI n p _, by simp [step, opClauses], fun hS hF _ =>
       ⟨sync_rmMetrics hS n p _, ?_, by simp [step, opClauses]⟩⟩
     apply fresh_of hF (by intro k; simp [step, State.rmMetrics])
     intro k m hm
@@ -1225,13 +1199,13 @@ theorem op_step {P : Params} (hc : 0 < P.cap) (hmax : P.maxA = 1) {hist : List O
     split_ifs at hm
     exact hm
   | setPeers ps =>
-    refine ⟨inv_setPeers hI ps _, by simp [step, opClauses], fun hS hF _ _ => ⟨?_, ?_, by simp [step, opClauses]⟩⟩
+    refine ⟨inv_setPeers hI ps _, by simp [step, opClauses], fun hS hF _ => ⟨?_, ?_, by simp [step, opClauses]⟩⟩
     · intro k hl hcnt ha
       exact hS k (by simpa [specStep] using hl) hcnt (by simpa [step, specStep] using ha)
     · exact fresh_of hF (by intro k; simp [step]) (by intro k m hm; simpa [step, specStep] using hm)
   | query n =>
     have hq := query_clauses_hold hI hids n
-    refine ⟨by simpa [step, specStep] using hI, ?_, fun hS hF _ _ => ⟨by simpa [step, specStep] using hS, ?_, ?_⟩⟩
+    refine ⟨by simpa [step, specStep] using hI, ?_, fun hS hF _ => ⟨by simpa [step, specStep] using hS, ?_, ?_⟩⟩
     · intro c hcm _
       exact hq c (by simpa [step, opClauses] using hcm)
     · exact fresh_of hF (by intro k; simp [step]) (by intro k m hm; simpa [step, specStep] using hm)
@@ -1240,7 +1214,7 @@ theorem op_step {P : Params} (hc : 0 < P.cap) (hmax : P.maxA = 1) {hist : List O
   | tick =>
     have hT := track_check P hmax i s hI.cnt hI.nodup .tick
     rw [step_check P i s .tick rfl]
-    refine ⟨inv_check hI hT .tick rfl, ?_, fun hS hF hcalm _ =>
+    refine ⟨inv_check hI hT .tick rfl, ?_, fun hS hF _ =>
       ⟨sync_check hI hS hT .tick rfl, fresh_check hI hF hT .tick rfl, ?_⟩⟩
     · intro c hcm hn
       simp only [opClauses, checkClauses, List.mem_cons, List.mem_nil_iff, or_false] at hcm
@@ -1255,13 +1229,13 @@ theorem op_step {P : Params} (hc : 0 < P.cap) (hmax : P.maxA = 1) {hist : List O
       rcases hcm with rfl | rfl | rfl | rfl | rfl
       · exact check_fresh_never_failed hI hT
       · exact check_alert_once hI hT
-      · exact check_expired_reported hI hS hT (calmTick_of hcalm)
-      · exact check_stale_forgotten hI hT (calmTick_of hcalm)
+      · exact check_expired_reported hI hS hT
+      · exact check_stale_forgotten hI hT
       · exact check_forget_only_reported hI hS hT
   | checkPeers l =>
     have hT := track_check P hmax i s hI.cnt hI.nodup (.checkPeers l)
     rw [step_check P i s (.checkPeers l) rfl]
-    refine ⟨inv_check hI hT (.checkPeers l) rfl, ?_, fun hS hF hcalm _ =>
+    refine ⟨inv_check hI hT (.checkPeers l) rfl, ?_, fun hS hF _ =>
       ⟨sync_check hI hS hT (.checkPeers l) rfl, fresh_check hI hF hT (.checkPeers l) rfl, ?_⟩⟩
     · intro c hcm hn
       simp only [opClauses, checkClauses, List.mem_cons, List.mem_nil_iff, or_false] at hcm
@@ -1276,8 +1250,8 @@ theorem op_step {P : Params} (hc : 0 < P.cap) (hmax : P.maxA = 1) {hist : List O
       rcases hcm with rfl | rfl | rfl | rfl | rfl
       · exact check_fresh_never_failed hI hT
       · exact check_alert_once hI hT
-      · exact check_expired_reported hI hS hT (calmTick_of hcalm)
-      · exact check_stale_forgotten hI hT (calmTick_of hcalm)
+      · exact check_expired_reported hI hS hT
+      · exact check_stale_forgotten hI hT
       · exact check_forget_only_reported hI hS hT
 
 theorem safe_from {P : Params} (hc : 0 < P.cap) (hmax : P.maxA = 1) {hist : List Op} (hids : (ids hist).Nodup) :
@@ -1302,21 +1276,20 @@ theorem idsAt_cons {i : Nat} {op : Op} {ops : List Op} (h : idsAt i (op :: ops) 
 
 theorem all_from {P : Params} (hc : 0 < P.cap) (hmax : P.maxA = 1) {hist : List Op} (hids : (ids hist).Nodup) :
     ∀ (ops : List Op) (i : Nat) (s : State) (t : SState), Inv P hist s t → Sync s t → Fresh i s t →
-      (∀ op ∈ ops, op ∈ hist) → idsAt i ops = true → calmFrom P i s ops = true →
+      (∀ op ∈ ops, op ∈ hist) → idsAt i ops = true →
       ∀ c ∈ clausesFrom P.cap P.orc hist i t ops (runFrom P i s ops), c.2 = true := by
   intro ops
   induction ops with
-  | nil => intro i s t _ _ _ _ _ _ c hcm; simp [clausesFrom, runFrom] at hcm
+  | nil => intro i s t _ _ _ _ _ c hcm; simp [clausesFrom, runFrom] at hcm
   | cons op ops ih =>
-    intro i s t hI hS hF hsub hid hcalm c hcm
-    simp only [calmFrom, Bool.and_eq_true] at hcalm
+    intro i s t hI hS hF hsub hid c hcm
     obtain ⟨hid1, hid2⟩ := idsAt_cons hid
     obtain ⟨hI', _, hstrong⟩ := op_step hc hmax hids i hI op (hsub op (by simp))
-    obtain ⟨hS', hF', hall⟩ := hstrong hS hF hcalm.1 hid1
+    obtain ⟨hS', hF', hall⟩ := hstrong hS hF hid1
     simp only [runFrom, clausesFrom, List.mem_append] at hcm
     rcases hcm with h1 | h2
     · exact hall c h1
-    · exact ih (i + 1) _ _ hI' hS' hF' (fun o ho => hsub o (by simp [ho])) hid2 hcalm.2 c h2
+    · exact ih (i + 1) _ _ hI' hS' hF' (fun o ho => hsub o (by simp [ho])) hid2 c h2
 
 /-! ### wrap-around -/
 
